@@ -28,6 +28,8 @@ type Case struct {
 	Seq []Ann `json:"seq"`
 	// InFlight: announcements made while an operation of the primary is in flight (package sess)
 	InFlight *sess.InFlight `json:"inflight,omitempty"`
+	// Inject: the server starts with this election id learnt and no primary (sess.Script.Inject)
+	Inject *gen.ID128 `json:"inject,omitempty"`
 }
 
 func setup() {
@@ -37,7 +39,7 @@ func setup() {
 }
 
 func toScript(c Case) sess.Script {
-	sc := sess.Script{FwdRefs: true}
+	sc := sess.Script{FwdRefs: true, Inject: c.Inject}
 	seen := map[int]bool{}
 	for _, a := range c.Seq {
 		if !seen[a.S] {
@@ -173,6 +175,9 @@ func TestCampaign(t *testing.T) {
 				}
 				c.Seq = append(c.Seq, a)
 			}
+			if rapid.IntRange(0, 5).Draw(rt, "inject?") == 0 {
+				c.Inject = &gen.ID128{Hi: halves[rapid.IntRange(0, len(halves)-1).Draw(rt, "inject-hi")], Lo: halves[rapid.IntRange(0, len(halves)-1).Draw(rt, "inject-lo")]}
+			}
 			v := runCase(c)
 			col.Check(rt, ev.JSON(c), v)
 		})
@@ -193,7 +198,7 @@ func minimize(sig string, cs []byte) []byte {
 		return nil
 	}
 	for i := 0; i < len(c.Seq); {
-		cc := Case{Seq: append(append([]Ann(nil), c.Seq[:i]...), c.Seq[i+1:]...)}
+		cc := Case{Seq: append(append([]Ann(nil), c.Seq[:i]...), c.Seq[i+1:]...), Inject: c.Inject}
 		if len(cc.Seq) > 0 && try(cc) {
 			c = cc
 		} else {
